@@ -85,6 +85,7 @@ package utils
 
 //@ func ReadRequest props(C01,C04,C07)
 //@   local backendID param 0 2
+//@   local callback param 0 4
 //@   local client param 0 0
 //@   local fr define 0 0 parseRequestFromProxyResponse ( _ , _ , _ , _ )
 //@   local proxyResp define 0 0 getRequestWithRetries ( _ , _ , _ , _ )
